@@ -7,6 +7,7 @@ import vf
 
 LEVEL = "exploration"
 H = "c03_syncrecv"
+BUILDS = [(H, "plain"), (H, "tsan"), (H, "asan")]   # quick: plain + tsan; thorough adds asan
 
 
 def _worker(ctx, binary, mode, seed, start, count, stride=1, timeout=1500, isolated=False):
@@ -53,7 +54,7 @@ def run(ctx):
     space = _space(bins[(H, "plain")])
     # histories per flavor: (conc, seq, tcp, probe, exhaustive stride or 0)
     if thorough:
-        plan = {"plain": (60000, 40000, 3000, 48, 1), "asan": (14000, 10000, 800, 16, 1), "tsan": (7000, 5000, 400, 16, 7)}
+        plan = {"plain": (120000, 80000, 6000, 48, 1), "asan": (30000, 20000, 1500, 16, 1), "tsan": (16000, 10000, 800, 16, 1)}
     else:
         plan = {"plain": (2400, 1200, 256, 8, 41), "tsan": (800, 400, 64, 4, 499)}
     jobs = []
